@@ -110,7 +110,22 @@ def clang_cmd(driver, out, only, tier):
 def _unit_path(unit, tier):
     return os.path.join(cache_dir(), '%s.%s.jsonl' % (unit, tier))
 
+LOADED_UNITS = set()
+
+def unit_deps(unit):
+    """Project headers (paths relative to the parent of INCLUDE) the driver of `unit` includes, transitively (clang -MM)."""
+    driver, only = UNITS[unit]
+    cmd = ['clang++', '-std=gnu++17', '-MM', '-UNDEBUG', '-w', '-I', INCLUDE, os.path.join(DRIVERS, driver)]
+    r = subprocess.run(cmd, capture_output=True, text=True)
+    if r.returncode != 0: raise AnalysisBroken('dependency scan of %s failed:\n%s' % (driver, r.stderr[-2000:]))
+    root = os.path.dirname(INCLUDE.rstrip('/')) + '/'
+    out = set()
+    for tok in r.stdout.replace('\\\n', ' ').split():
+        if tok.startswith(root): out.add(tok[len(root):])
+    return out
+
 def ensure_unit(unit, tier):
+    LOADED_UNITS.add(unit)
     build_plugin()
     path = _unit_path(unit, tier)
     if os.path.exists(path):
